@@ -35,8 +35,15 @@ theorem binLevel_ne13 (op : BinOp) : binLevel op ≠ 13 := by cases op <;> decid
 theorem operandStart_fmt (e : Expr) (hwf : WF e) (outer : Nat) (side : Side) (rest : List Tok) :
     OperandStart (toks (fmtSub e outer side) ++ rest) := by
   obtain ⟨t, ts', h1, h2, _⟩ := head_fmt e hwf outer side
-  rw [h1]; exact h2
+  rw [h1]; exact h2.1
 
+/-- the invariant of a non-empty argument list: after `(`, `parseArgs1` reads the printed list up to `)` -/
+def A1 : Args → Prop
+  | .nil => True
+  | .cons e r => ∀ rest, ∃ N, ∀ f, N ≤ f →
+      parseArgs1 f (toks (fmtArgs (.cons e r)) ++ .p .RightParen :: rest) = some (.cons e r, rest)
+
+mutual
 theorem rt : (e : Expr) → WF e → RT e
   | .lit n, hwf => by
     intro k term rest out hterm hle hk htf hno hfin
@@ -322,5 +329,95 @@ theorem rt : (e : Expr) → WF e → RT e
       simp [h1 f' (by omega), h2 f' (by omega)]
     have hp13 : Parses 13 term _ (.tern c a b, rest) := lift hC hK (by omega)
     exact finish_nonloop hp13 (Or.inr (Or.inr (Or.inl rfl))) hle (fun h => by omega) hno hfin
+  | .call fn args, hwf => by
+    intro k term rest out hterm hle hk htf hno hfin
+    have ihf := rt fn hwf.1
+    have iha := rt_args args hwf.2
+    have hlvl : (Expr.call fn args).lvl = 1 := rfl
+    rw [hlvl] at hle hfin
+    have htoks : toks (fmtBody (.call fn args)) = toks (fmtSub fn callObjectPrec callObjectSide) ++
+        (.p .LeftParen :: (toks (fmtArgs args) ++ [.p .RightParen])) := by
+      simp only [fmtBody, fmtSub]
+      rw [show needParen precCall topPrec topSide = false by decide, wrap_false]
+      simp [pp]
+    rw [htoks]
+    simp only [List.append_assoc, List.cons_append, List.nil_append]
+    have hArgs : ∃ N, ∀ f, N ≤ f → parseArgs f (toks (fmtArgs args) ++ .p .RightParen :: rest) = some (args, rest) := by
+      match args, hwf.2, iha with
+      | .nil, _, _ =>
+        exact ⟨1, fun f hf => by obtain ⟨f', rfl, _⟩ := succ_of_pos hf; simp [fmtArgs, parseArgs]⟩
+      | .cons e r, hw, ih =>
+        obtain ⟨N, h⟩ := ih rest
+        refine ⟨N + 1, fun f hf => ?_⟩
+        obtain ⟨f', rfl, hf'⟩ := succ_of_pos hf
+        -- the list does not start with `)`
+        have hne : ∃ t ts', toks (fmtArgs (.cons e r)) ++ .p .RightParen :: rest = t :: ts' ∧ t ≠ .p .RightParen := by
+          cases r with
+          | nil =>
+            obtain ⟨t, ts', h1, h2, _⟩ := head_fmt e hw.1 callArgPrec callArgSide
+            exact ⟨t, ts' ++ .p .RightParen :: rest, by simp [fmtArgs, h1], h2.2⟩
+          | cons e' r' =>
+            obtain ⟨t, ts', h1, h2, _⟩ := head_fmt e hw.1 callArgMainPrec callArgMainSide
+            exact ⟨t, _, by simp [fmtArgs, h1]; rfl, h2.2⟩
+        obtain ⟨t, ts', hts, hne⟩ := hne
+        have h' := h f' hf'
+        rw [hts] at h' ⊢
+        unfold parseArgs
+        split
+        · rename_i heq; cases heq; exact absurd rfl hne
+        · exact h'
+    refine finish_loop (lv := 1) ?_ (by decide) hle ?_ hno hfin
+    · intro out' hc
+      apply rts ihf _ _ 1 term _ out' hterm (by omega)
+      · exact fun hp => ⟨pos_postfixLike fn _ (Or.inl rfl) hp, fun h => by have := pos_postfixLike fn _ (Or.inl rfl) hp; omega⟩
+      · exact fun i h1 h2 => by omega
+      · apply fin_of_conts _ _ _ _ _ _ (by decide)
+        obtain ⟨N1, h1⟩ := hArgs
+        obtain ⟨N2, h2⟩ := hc
+        refine ⟨max N1 N2 + 1, fun f hf => ?_⟩
+        obtain ⟨f', rfl, hf'⟩ := succ_of_pos hf
+        unfold cont
+        simp [h1 f' (by omega), h2 f' (by omega)]
+    · intro _
+      obtain ⟨t, ts', h1, h2, h3⟩ := head_fmt fn hwf.1 callObjectPrec callObjectSide
+      rw [h1]
+      simp only [List.cons_append, NoPrefix]
+      apply h3
+      cases hpx : needParen fn.prec callObjectPrec callObjectSide with
+      | true => exact Or.inl rfl
+      | false => exact Or.inr (pos_postfixLike fn _ (Or.inl rfl) hpx)
+theorem rt_args : (a : Args) → WFA a → A1 a
+  | .nil, _ => trivial
+  | .cons e .nil, hw => by
+    intro rest
+    have ihe := rt e hw.1
+    have hE : Parses 15 .Sequence (toks (fmtSub e callArgPrec callArgSide) ++ (.p .RightParen :: rest))
+        (e, .p .RightParen :: rest) :=
+      rts_self ihe _ _ 15 .Sequence _ (by decide) (Nat.le_refl _)
+        (fun hp => ⟨by have := pos_arg e hp; omega, fun h => by have := pos_arg e hp; omega⟩)
+        (noLow_closes 15 _ _ _ (Or.inl rfl)) (fun _ => inert_closes 15 _ _ _ (Or.inl rfl))
+    obtain ⟨N, h⟩ := hE
+    refine ⟨N + 1, fun f hf => ?_⟩
+    obtain ⟨f', rfl, hf'⟩ := succ_of_pos hf
+    unfold parseArgs1
+    simp [fmtArgs, callArgTerminator, h f' hf']
+  | .cons e (.cons e' r'), hw => by
+    intro rest
+    have ihe := rt e hw.1
+    have ihr := rt_args (.cons e' r') hw.2 rest
+    have hE : Parses 15 .Sequence (toks (fmtSub e callArgMainPrec callArgMainSide) ++
+        (.p .Comma :: (toks (fmtArgs (.cons e' r')) ++ .p .RightParen :: rest)))
+        (e, .p .Comma :: (toks (fmtArgs (.cons e' r')) ++ .p .RightParen :: rest)) :=
+      rts_self ihe _ _ 15 .Sequence _ (by decide) (Nat.le_refl _)
+        (fun hp => ⟨by have := pos_arg e hp; omega, fun h => by have := pos_arg e hp; omega⟩)
+        (noLow_closes 15 _ _ _ (Or.inr (Or.inr (Or.inr (Or.inr ⟨rfl, rfl⟩)))))
+        (fun _ => inert_closes 15 _ _ _ (Or.inr (Or.inr (Or.inr (Or.inr ⟨rfl, rfl⟩)))))
+    obtain ⟨N1, h1⟩ := hE
+    obtain ⟨N2, h2⟩ := ihr
+    refine ⟨max N1 N2 + 1, fun f hf => ?_⟩
+    obtain ⟨f', rfl, hf'⟩ := succ_of_pos hf
+    unfold parseArgs1
+    simp [fmtArgs, callArgTerminator, pp, h1 f' (by omega), h2 f' (by omega)]
+end
 
 end RsslVerif.Lemmas.Roundtrip
